@@ -107,6 +107,14 @@ impl Sc for Q {
     }
 }
 
+thread_local! {
+    /// set by the machine around the encoding of a result: may this op's exact result be irrational?
+    pub static SURD_OK: std::cell::Cell<bool> = std::cell::Cell::new(false);
+}
+/// ops whose exact result may be a square root even for rational inputs (a property of the op, not of the expected value)
+pub const SURD_OPS: &[&str] = &["magnitude", "normalize", "normalize_to", "distance", "nlerp", "slerp"];
+/// ... and these only when the result is a quaternion (a matrix built from a normalised quaternion is rational again)
+pub const SURD_QUAT_OPS: &[&str] = &["between_vectors", "from_arc", "quat_from_mat3", "quat_from_basis3", "rot_look_at", "tf_look_at"];
 fn enc_float(x: f64, maxden: i64, tol: f64) -> String {
     if x.is_nan() {
         return "[0,0]".into();
@@ -114,12 +122,21 @@ fn enc_float(x: f64, maxden: i64, tol: f64) -> String {
     if x.is_infinite() {
         return if x > 0.0 { "[1,0]".into() } else { "[-1,0]".into() };
     }
-    if let Some((p, q)) = ang::snap_rat(x, maxden, tol) {
-        return format!("[{},{}]", p, q);
+    // Results of rational-only ops snap to a rational.  For ops that may return square roots: a small-denominator
+    // rational first, then the signed square root of a rational, then any rational (a generic irrational has
+    // accidental rational approximations with denominators near `maxden`, hence the order and the tight radius).
+    if !SURD_OK.with(|c| c.get()) {
+        if let Some((p, q)) = ang::snap_rat(x, maxden, tol) { return format!("[{},{}]", p, q); }
+    } else {
+        let t2 = tol / 50.0;
+        if let Some((p, q)) = ang::snap_rat(x, 2000.min(maxden), t2) { return format!("[{},{}]", p, q); }
+        if let Some((n, d)) = ang::snap_rat(x * x, maxden, 2.0 * t2) { if n > 0 { return format!("[{},{},{}]", if x < 0.0 { -1 } else { 1 }, n, d); } }
+        if let Some((p, q)) = ang::snap_rat(x, maxden, t2) { return format!("[{},{}]", p, q); }
     }
-    if let Some((p, q)) = ang::snap_rat(x * x, maxden, 2.0 * tol) {
-        if p > 0 {
-            return format!("[{},{},{}]", if x < 0.0 { -1 } else { 1 }, p, q);
+    // tiny values: the reciprocal may be a small rational (1e-7 = 1/10000000)
+    if x.abs() < 1.0 && x != 0.0 {
+        if let Some((p, q)) = ang::snap_rat(1.0 / x, 1000, tol) {
+            if p != 0 { let (n, d) = if p < 0 { (-q, -p) } else { (q, p) }; return format!("[{},{}]", n, d); }
         }
     }
     BAD.into()
@@ -135,7 +152,7 @@ fn dec_float(j: &Value) -> f64 {
         sg as f64 * (n as f64 / d as f64).sqrt()
     }
 }
-pub const F64_TOL: f64 = 2e-11;
+pub const F64_TOL: f64 = 1e-11;
 pub const F64_DEN: i64 = 100_000;
 pub const F32_TOL: f64 = 4e-6;
 pub const F32_DEN: i64 = 256;
